@@ -431,6 +431,18 @@ func (g *gen) step() {
 		// here on the last irreversible height is frozen while the tip grows
 		g.p.Add(Step{Op: "sleep", Secs: nb + int64(r.Intn(120))})
 		g.p.Add(Step{Op: "mine", Block: &BlockSpec{Miner: r.Intn(10), Revert: true}})
+		if g.prop == "C30" && r.Bool(0.5) {
+			// silence again and a second revert block on the chain that already is
+			// in PoW mode; then a two-block branch from its parent replaces it (a
+			// one-block reorganization that rolls the second revert back)
+			g.p.Add(Step{Op: "sleep", Secs: nb + int64(r.Intn(120))})
+			g.p.Add(Step{Op: "mine", Block: &BlockSpec{Miner: r.Intn(10), Revert: true}})
+			g.p.Add(Step{Op: "mine", Block: &BlockSpec{Miner: r.Intn(10), PMode: 2, Parent: 1}})
+			g.p.Add(Step{Op: "mine", Block: &BlockSpec{Miner: r.Intn(10), PMode: 4}})
+			for k := r.Range(0, 3); k > 0; k-- {
+				g.p.Add(Step{Op: "mine", Block: &BlockSpec{Miner: r.Intn(10)}})
+			}
+		}
 		return
 	}
 	if g.on["reorder"] && r.Bool(0.06) {
